@@ -725,6 +725,11 @@ func runCheck(id, tier, only string) int {
 	}
 	seed := seedFromEnv()
 	evPath := filepath.Join(verifRoot, "evidence", id+".json")
+	if repoRoot != "/repo" {
+		// a run against another checkout (mutation testing) must not overwrite
+		// the evidence of the real tree
+		evPath = filepath.Join(buildDir(), "evidence", id+".json")
+	}
 	os.MkdirAll(filepath.Dir(evPath), 0755)
 
 	fail := func(msg string) int {
